@@ -73,6 +73,7 @@ type State struct {
 	objHeap   map[string]Term
 	mapHeap   map[string]Term
 	chanHeap  map[string]Term // copy-on-write
+	objHavoc  []string        // heap-key prefixes havocked by `assigns objects(T)` callees (append-only)
 	next      Term
 	logs      map[string]*CallLog
 	ghost     map[string]Val
@@ -98,7 +99,7 @@ func NewState() *State {
 }
 
 func (s *State) Clone() *State {
-	n := &State{next: s.next, actions: s.actions, dead: s.dead, specIters: s.specIters[:len(s.specIters):len(s.specIters)], lastIter: s.lastIter, actionLog: s.actionLog[:len(s.actionLog):len(s.actionLog)], chunks: s.chunks, chanHeap: s.chanHeap}
+	n := &State{next: s.next, actions: s.actions, dead: s.dead, specIters: s.specIters[:len(s.specIters):len(s.specIters)], lastIter: s.lastIter, actionLog: s.actionLog[:len(s.actionLog):len(s.actionLog)], chunks: s.chunks, chanHeap: s.chanHeap, objHavoc: s.objHavoc[:len(s.objHavoc):len(s.objHavoc)]}
 	n.pc = append([]Term(nil), s.pc...)
 	n.path = append([]string(nil), s.path...)
 	n.cells = make(map[int]Val, len(s.cells))
